@@ -6,7 +6,7 @@ from ..core import AnalysisError, norm, walk_no_nested
 
 META = {
     'design_ref': 'DESIGN.md §5 C09',
-    'technique': 'shape-case abstract interpretation of the loop-free LinkedList / LinkedListNode / OrderedSet methods over symbolic heaps with a reference list model as oracle; failure-atomicity on the same interpreter; Deb822Dict methods interpreted with case-variant keys (a plain string meets a stored key only in its lower-cased spelling) against a reference mapping; hash/equality agreement of the case-insensitive string from path enumeration; copy-protocol rule for classes that store weak references and for key classes with __slots__; __reduce__ interpreted after every re-ordering (items in list order); default sort key interpreted on names of mixed case; constructor interpreted on sequences of pairs with repeated keys',
+    'technique': 'shape-case abstract interpretation of the loop-free LinkedList / LinkedListNode / OrderedSet methods over symbolic heaps with a reference list model as oracle; failure-atomicity on the same interpreter; Deb822Dict methods interpreted with case-variant keys (a plain string meets a stored key only in its lower-cased spelling) against a reference mapping; hash/equality agreement of the case-insensitive string from path enumeration; copy-protocol rule for classes that store weak references and for key classes with __slots__; __reduce__ interpreted after every re-ordering (items in list order); default sort key interpreted on names of mixed case; constructor interpreted on sequences of pairs with repeated keys; two-step histories (re-order, sort or delete, then assign) on objects completed with what the constructor derives from their attributes',
     'level_text': 'Static decision per shape case: after append / insert at head / insert before-after / remove / pop / clear the list is a '
                   'well-formed doubly linked list holding exactly the reference sequence; OrderedSet add/remove/order_* keep table and list in '
                   'tandem, keep the first spelling and raise KeyError/ValueError before any mutation; every access of Deb822Dict to its '
@@ -353,6 +353,7 @@ def r1_key_normalisation(rep, src):
         heap.objs[d.name]['entries'] += [(A, 'v-alpha'), (B, 'v-beta')]
         dec = heap.alloc('Decoder', {}, name='@decoder')
         me = heap.alloc('Deb822Dict', {'_Deb822Dict__dict': d, '_Deb822Dict__keys': oset, '_Deb822Dict__parsed': None, 'decoder': dec, 'encoding': 'utf-8'}, name='@dict')
+        H.Interp(heap).complete_from_init(me)       # what the constructor derives from these attributes (a cached bound method, a count)
         return heap, me, d, lst, table
 
     def state(heap, d, lst, table, me):
@@ -433,6 +434,44 @@ def r1_key_normalisation(rep, src):
         else:
             rep.ok(rule, fn.site, what, 'result %r, keys %s' % (got, order))
     rep.analysed['call_sites'] += n
+    # two operations in a row: what the first leaves behind (a replaced key set, a detached node, a cached helper that was bound at
+    # construction) must not make the second miss -- every re-ordering / sort / deletion, then a new key and an old key assigned
+    firsts = [('sort_fields', [None], ['Beta', 'Alpha']), ('order_last', ['ALPHA'], ['Beta', 'Alpha']), ('order_first', ['BETA'], ['Beta', 'Alpha']),
+              ('__delitem__', ['ALPHA'], ['Beta']), ('__setitem__', ['Gamma', 'g'], ['Alpha', 'Beta', 'Gamma'])]
+    for m1_, a1_, order1 in firsts:
+        for key2, is_new in (('Delta', True), ('alpha', 'Alpha' not in order1), ('BETA', False)):
+            heap, me, d, lst, table = world()
+            it_ = H.Interp(heap)
+            f1_ = heap.module.method('Deb822Dict', m1_)
+            f2_ = heap.module.method('Deb822Dict', '__setitem__')
+            f3_ = heap.module.method('Deb822Dict', '__contains__')
+            f4_ = heap.module.method('Deb822Dict', '__len__')
+            what = 'Deb822Dict.%s(%s), then [%r] = "x", on {Alpha, Beta}' % (m1_, ', '.join(repr(a) for a in a1_), key2)
+            try:
+                it_.call(H.Closure(f1_.node, {}, me, f1_.cls), list(a1_))
+                it_.call(H.Closure(f2_.node, {}, me, f2_.cls), [key2, 'x'])
+                has = it_.call(H.Closure(f3_.node, {}, me, f3_.cls), [key2])
+                ln = it_.call(H.Closure(f4_.node, {}, me, f4_.cls), [])
+            except H.Raised as x:
+                rep.fail('C09.R2', f2_.site, what, 'raises %s (line %d)' % (x.exc, x.lineno), where=f2_.where)
+                continue
+            order, vals, problems = state(heap, d, lst, table, me)
+            worder = order1 + [key2] if is_new else list(order1)
+            bad = list(problems)
+            if order != worder:
+                bad.append('the keys are %s, the reference list model says %s%s' % (order, worder, ': the assigned key is stored but not listed (iteration, len(), `in`, dump() and copy() do '
+                                                                                         'not see it)' if is_new and key2 not in order else ''))
+            if has is not True:
+                bad.append('`%r in d` is %r' % (key2, has))
+            if ln != len(worder):
+                bad.append('len() is %r, the model has %d keys' % (ln, len(worder)))
+            stored = next((v_ for k_, v_ in vals.items() if k_.lower() == key2.lower()), None)
+            if stored != 'x':
+                bad.append('the value stored for %r is %r' % (key2, stored))
+            if bad:
+                rep.fail('C09.R2', f2_.site, what, '; '.join(bad), where=f2_.where)
+            else:
+                rep.ok('C09.R2', f2_.site, what, 'keys %s' % order)
     # copy(): a mapping whose key order was changed after the keys were inserted (order_last) copies in its *current* order, with
     # the same values; the constructor is interpreted (items() of the abstract base is iteration + item access)
     heap, me, d, lst, table = world()
@@ -646,6 +685,7 @@ def r6_sort_fields(rep, src):
         it = H.Interp(heap)
         oset, lst, table, nodes = build_set(heap, src, keys)
         me = heap.alloc('Deb822Dict', {'_Deb822Dict__keys': oset})
+        H.Interp(heap).complete_from_init(me)
         try:
             it.call(H.Closure(f.node, {}, me, f.cls), list(args))
         except H.Raised as x:
